@@ -40,6 +40,8 @@ def gen_cases(tier, seed):
     for i, g in enumerate(family_b('quick')):
         if tier == 'thorough' or i % 4 == 0:
             yield ('B', g)
+    for i in range(len(patterned_irs())):
+        yield ('P', i)
     T = IR.recursive_templates()
     for name in T:
         for dom in (1, 2):
@@ -69,6 +71,15 @@ def run_case(case):
             ir = dict(g)
             ir['nl'] = {'T': dom}
             judge(ir, IR.generic_weights(ir, stride=7), r, ('V1', ir, ('generic', 0)), nonrec=True)
+    elif case[0] == 'P':
+        ir = patterned_irs()[case[1]]
+        w = IR.generic_weights(ir, stride=7)
+        for a in range(ir['nl']['T']):
+            for b in range(ir['nl']['T']):
+                if a != b:
+                    w = IR.set_entry(w, 'i', (a, b), Fraction(0))
+        judge(ir, w, r, case, nonrec=True)
+        judge(ir, w, r, case, nonrec=True, pres={'node_order': {ri: tuple(reversed(range(len(rule[1])))) for ri, rule in enumerate(ir['rules'])}})
     elif case[0] == 'R':
         _, name, dom, wrepr, order = case
         ir = dict(IR.recursive_templates()[name])
@@ -83,6 +94,23 @@ def run_case(case):
         pres = {'node_order': {0: tuple(reversed(range(len(ir['rules'][0][1]))))}} if len(case) > 3 else None
         judge(ir, weights_for(ir, wspec), r, case, nonrec=True, pres=pres)
     return r
+
+
+def patterned_irs():
+    """Rules with three external nodes and an internal node tied to one of them through a factor stored as a diagonal
+    pattern (the back-pointer of the internal node is a copy of an output axis), as start symbol and below a parent."""
+    out = []
+    for dom in (2, 3):
+        for k in (0, 1, 2):
+            for flip in (False, True):
+                att = (k, 3) if flip else (3, k)
+                others = tuple(j for j in range(3) if j != k)
+                xrule = ('X', ('T',) * 4, (0, 1, 2), (('g', others + (3,)), ('i', att), ('h', (3,))))
+                base = {'nl': {'T': dom}, 'term': {'i': ('T', 'T'), 'g': ('T', 'T', 'T'), 'h': ('T',)}, 'patterned': {'i': 'diag'}}
+                out.append(dict(base, start='X', nt={'X': ('T',) * 3}, rules=[xrule]))
+                out.append(dict(base, start='S', nt={'S': (), 'X': ('T',) * 3}, term={'i': ('T', 'T'), 'g': ('T', 'T', 'T'), 'h': ('T',), 'p': ('T', 'T'), 'q': ('T',)},
+                                rules=[('S', ('T',) * 3, (), (('X', (0, 1, 2)), ('p', (0, 1)), ('q', (2,)))), xrule]))
+    return out
 
 
 def weights_for(ir, wspec):
